@@ -296,8 +296,8 @@ def check_c09(tier, seed):
     v = Verdict("C09", tier, seed)
     st = new_stage()
     merged = Merged()
-    builds = ["shipped", "w32ua0"] if tier == "thorough" else ["shipped"]
-    libs = run_parallel([lambda n=n: mkbuild(n).build(st, jobs=8) for n in builds], workers=2)
+    builds = ["shipped", "w32ua0", "clang"] if tier == "thorough" else ["shipped"]
+    libs = run_parallel([lambda n=n: mkbuild(n).build(st, jobs=5) for n in builds], workers=3)
     srcs = ["common.c", "pin.c", "families.c", "alloc.c", "obj.c", "mc.c", "h_buf.c"]
     vg = ["valgrind", "-q", "--tool=memcheck", "--undef-value-errors=no", "--partial-loads-ok=no", "--error-limit=no", "--num-callers=10", "--error-exitcode=0"]
     per = {}
@@ -335,7 +335,7 @@ def check_c10(tier, seed):
         m = run_mc(st, lib, "h_keylen.c", "c10", tier, seed, merged, v, nshards=NCPU)
         per[lib.name] = m.evaluations
     cov = {"evaluations": merged.evaluations, "distinct_nontrivial": merged.distinct,
-           "rule": "every key length 0..64 and {65,255,256,65536,2^31,UINT_MAX} x the ten SKINNY key-setting entry points (single-block, tweaked, CTR, CTR tweaked, parallel; every back end) "
+           "rule": "every key length 0..64, {65,255,256,65536,2^31,UINT_MAX}, 2^k + {0,B,2B,3B} for k = 24..31 and 2^32 - v for v = 1..48 (where length arithmetic could wrap) x the ten SKINNY key-setting entry points (single-block, tweaked, CTR, CTR tweaked, parallel; every back end) "
                    "x key contents (R1 fill, 0xFF fill, every%s byte value at every position beyond the last primary boundary); Mantis: sizes {0,1,8,15,16,17,24,32,33,255,65536,UINT_MAX} x rounds 0..12 (+wrapped) x modes x 3 entry points. "
                    "Accepted length: schedule image, ciphertexts and specification agree with the same bytes zero-padded to the next primary size (stack painted 0x00 vs 0xA5 before the two calls). "
                    "Rejected length: returns 0, pre-existing object byte-identical (three priors), key buffer is one byte flush against a PROT_NONE page so rejection must precede any read. "
